@@ -38,12 +38,56 @@ LETTERS = {"latn": ("a", "b"), "cyrl": ("A-cy", "Be-cy"), "arab": ("alef-ar", "b
            "deva": ("ka-deva", "ta-deva")}
 LS_MENU = ["languagesystem DFLT dflt;", "languagesystem latn dflt;", "languagesystem latn TRK;",
            "languagesystem arab dflt;", "languagesystem dev2 dflt;"]
+# ordered statement lists that the subset menu cannot express: one script's statements interleaved
+# with another script's, and the two OpenType tags of one script declared with different languages
+LS_SCENARIOS = {
+    "interleaved": ["languagesystem DFLT dflt;", "languagesystem latn dflt;", "languagesystem latn TRK;",
+                    "languagesystem grek dflt;", "languagesystem latn AZE;", "languagesystem cyrl dflt;",
+                    "languagesystem arab dflt;", "languagesystem dev2 dflt;", "languagesystem deva dflt;"],
+    "dual-tag": ["languagesystem DFLT dflt;", "languagesystem latn dflt;", "languagesystem dev2 dflt;",
+                 "languagesystem dev2 MAR;", "languagesystem deva dflt;", "languagesystem arab dflt;",
+                 "languagesystem cyrl dflt;"],
+    "dual-tag-old-only": ["languagesystem DFLT dflt;", "languagesystem dev2 dflt;", "languagesystem deva dflt;",
+                          "languagesystem deva NEP;", "languagesystem latn dflt;"],
+}
 USER = {
     "none": "",
     "gsub": "feature liga { sub a b by f_i; } liga;\n",
     "kern-marker": "feature kern {\n    pos period period -5;\n    # Automatic Code\n} kern;\n",
 }
 GENERATED_ATTACH = ("mark", "mkmk", "abvm", "blwm", "curs")
+GENERATED_KERN = ("kern", "dist")
+
+
+def kern_pairs(lay, feature_tag):
+    """[(first, second)] glyph pairs that the PairPos lookups of the feature adjust (non-zero)."""
+    pairs = []
+    for li in lay.lookups_of_features({feature_tag}):
+        for typ, st in lay.subtables(lay.lookup(li)):
+            if typ != 2:
+                continue
+            if st.Format == 1:
+                for g1, ps in zip(st.Coverage.glyphs, st.PairSet):
+                    for pvr in ps.PairValueRecord:
+                        if pvr.Value1 is not None and (getattr(pvr.Value1, "XAdvance", 0) or 0):
+                            pairs.append((g1, pvr.SecondGlyph))
+            else:
+                c2 = {}
+                for g, c in st.ClassDef2.classDefs.items():
+                    c2.setdefault(c, []).append(g)
+                for g1 in st.Coverage.glyphs:
+                    k1 = st.ClassDef1.classDefs.get(g1, 0)
+                    for k2, rec in enumerate(st.Class1Record[k1].Class2Record):
+                        if rec.Value1 is not None and (getattr(rec.Value1, "XAdvance", 0) or 0):
+                            pairs += [(g1, g2) for g2 in c2.get(k2, [])]
+    return pairs
+
+
+def neutral(glyph):
+    uv = GL.get(glyph)
+    if uv is None:
+        return True
+    return bool(set(unicodedata.script_extension(chr(uv))) & {"Zyyy", "Zinh"})
 
 
 def make_spec(mix, kern, anch, ls, user):
@@ -79,7 +123,10 @@ def make_spec(mix, kern, anch, ls, user):
                 glyphs[m]["anchors"].append(("top", 0, 700))
     if user == "gsub" and "f_i" not in glyphs:
         return None
-    fea = "".join(l + "\n" for l, on in zip(LS_MENU, ls) if on) + USER[user]
+    if isinstance(ls, str):
+        fea = "".join(l + "\n" for l in LS_SCENARIOS[ls]) + USER[user]
+    else:
+        fea = "".join(l + "\n" for l, on in zip(LS_MENU, ls) if on) + USER[user]
     spec = {"glyphs": glyphs, "order": list(glyphs), "kerning": kerning, "lib": {}}
     if mix in SKIPPED:
         spec["lib"]["public.skipExportGlyphs"] = list(SKIPPED[mix])
@@ -165,6 +212,10 @@ class C20(Property):
                                     continue
                                 out.append([{"mix": mix, "kern": kern, "anch": anch, "ls": list(ls),
                                              "user": user, "flavour": fl}])
+                                if ls == (0, 0, 0, 0, 0):
+                                    for sc in LS_SCENARIOS:
+                                        out.append([{"mix": mix, "kern": kern, "anch": anch, "ls": sc,
+                                                     "user": user, "flavour": fl}])
                                 if user == "none" and sum(ls) in (0, 5) or ls == (1, 1, 0, 0, 0):
                                     for prev in ("latn+cyrl", "arab", "deva"):
                                         if prev != mix:
@@ -197,7 +248,16 @@ class C20(Property):
         if lay.gpos is not None and lay.gpos.ScriptList is not None:
             tags_present = set(lay.feature_tags())
             pairs = {t: attaching_pairs(lay, t) for t in GENERATED_ATTACH if t in tags_present}
-            declared = {(l.split()[1], l.split()[2].rstrip(";")) for l, on in zip(LS_MENU, c["ls"]) if on}
+            # kern and dist are alternative carriers of the same kerning: one requirement "kerning"
+            kp = [p for t in GENERATED_KERN if t in tags_present for p in kern_pairs(lay, t)]
+            if kp:
+                pairs["kerning"] = kp
+            if c["user"] == "kern-marker":
+                # the hand-written rule of the marked kern block is the user's, not a generated one
+                pairs["kerning"] = [p for p in pairs.get("kerning", [])
+                                    if p != ("period", "period") or c["kern"] == "with-common"]
+            stmts = LS_SCENARIOS[c["ls"]] if isinstance(c["ls"], str) else [l for l, on in zip(LS_MENU, c["ls"]) if on]
+            declared = {(l.split()[1], l.split()[2].rstrip(";")) for l in stmts}
             # scripts the font demonstrably supports: an EXPORTED glyph whose script extension is that
             # single script (how the writers themselves decide), or a languagesystem statement
             exported = set(tt.getGlyphOrder())
@@ -215,9 +275,8 @@ class C20(Property):
                     feats = {t for t, _ in lay.langsys_features(tag, lang)}
                     table.append((tag, lang, sorted(feats)))
                     ctrs["langsys_checked"] += 1
-                    if not feats & {"kern", "dist"}:
-                        continue
-                    ctrs["langsys_with_kern"] += 1
+                    if feats & {"kern", "dist"}:
+                        ctrs["langsys_with_kern"] += 1
                     for t, pp in pairs.items():
                         if t in ("abvm", "blwm") and tag not in ("dev2", "deva"):
                             continue  # only Indic/USE shapers apply abvm/blwm
@@ -226,17 +285,19 @@ class C20(Property):
                             continue
                         ctrs["required_features"] += 1
                         nontrivial = 1
-                        if t not in feats:
+                        present = bool(feats & {"kern", "dist"}) if t == "kerning" else t in feats
+                        if not present:
                             viols.append(violation(
                                 "feature-unreachable",
-                                {"feature": t,
+                                {"feature": t, "pair_neutral": all(neutral(g) for p in acts for g in p),
                                  "langsys_declared": (tag, (lang or "dflt").strip()) in declared,
                                  "script_supported": tag in known_tags or tag == "DFLT",
+                                 "dflt_declared": ("DFLT", "dflt") in declared or not declared,
                                  "reused_writers": bool(c.get("prev")),
                                  "langsys": "default" if lang is None else "named",
                                  "script": "DFLT" if tag == "DFLT" else "other"},
                                 script=tag, language=lang, listed=sorted(feats), example_pair=acts[0],
-                                languagesystems=[l for l, on in zip(LS_MENU, c["ls"]) if on], case=c))
+                                languagesystems=stmts, case=c))
         seen, out = set(), []
         for v in viols:
             k = (v["kind"], str(sorted(v["features"].items())))
